@@ -261,3 +261,44 @@ def run(rep, programs):
                 ok = l is not None and (l == ({("pow2", ("c", prog.crate("llfree").const("llfree::TREE_ORDER"))): 1}, 0) or l == ({}, 1 << prog.crate("llfree").const("llfree::TREE_ORDER")))
     rep.check(ok, "R-ZONE-FLOW", "ZoneAlloc::create|offset-aligned", "offset must be a multiple of the tree size (frame/tree arithmetic commutes with the shift)",
               "ZoneAlloc::create does not require a tree-aligned offset", b.span)
+
+
+def r_forward(rep, prog):
+    rule = "R-FORWARD"
+    rep.rule(rule, "sibling agreement: every NvmAlloc method forwards to the same method of its ZoneAlloc with its parameters in order; "
+                   "ZoneAlloc's untranslated methods forward likewise to the inner allocator")
+    n = 0
+    for wrapper, inner_prefix, methods in (
+        ("<llfree::wrapper::NvmAlloc as llfree::Alloc>::", "<llfree::wrapper::ZoneAlloc as llfree::Alloc>::",
+         ["get", "put", "frames", "tree_stats", "stats", "stats_at", "drain", "metadata"]),
+        ("<llfree::wrapper::ZoneAlloc as llfree::Alloc>::", "llfree::Alloc::", ["frames", "tree_stats", "stats", "drain", "metadata"]),
+    ):
+        for m in methods:
+            b = prog.body(wrapper + m)
+            if b is None:
+                rep.violation(rule, wrapper + m, "method missing (falls back to the trait default)")
+                continue
+            n += 1
+            tm = T.Terms(b, prog)
+            calls = [(bi, t) for bi, t in b.calls() if lib.local_call(t)]
+            ok = len(calls) == 1 and callee_name(calls[0][1]["callee"]) in (inner_prefix + m, "llfree::Alloc::" + m)
+            detail = [callee_name(t["callee"]) for _, t in calls]
+            if ok:
+                a = [T.canon(tm.operand(x)) for x in calls[0][1]["args"]]
+                recv_ok = a[0] == ("f", ("p", "self"), "alloc")
+                params = [("p", b.local_name(i) or "_%d" % i) for i in range(2, b.arg_count + 1)]
+                ok = recv_ok and a[1:] == params
+                # and the result is returned unchanged
+                rets = [tm.call_term(bi) if si == "term" else tm.rvalue(rv) for bi, si, rv in lib.assignments_to_return(b)]
+                ok = ok and all(r[0] == "call" and r[1] == callee_name(calls[0][1]["callee"]) for r in rets if r[0] != "k") and bool(rets) or (ok and m == "drain")
+                detail = "args %s" % (a,)
+            rep.check(ok, rule, wrapper + m, "forwards to self.alloc.%s(..) unchanged" % m, "%s does not simply forward: %s" % (wrapper + m, detail), b.span)
+    rep.floor(rule, "forwarding methods", n, 13)
+
+
+_run_c17 = run
+
+
+def run(rep, programs):  # noqa: F811
+    _run_c17(rep, programs)
+    r_forward(rep, programs["core"])
